@@ -17,6 +17,7 @@ import (
 	"sort"
 	"strings"
 	"sync"
+	"testing/fstest"
 	"text/template"
 
 	mail "github.com/wneessen/go-mail"
@@ -54,7 +55,7 @@ type PartSpec struct {
 	Charset string // "" = message default
 	Desc    string
 	Prod    Producer
-	Src     string // builder entry point: "" = Set/AddAlternativeWriter, "str" = SetBodyString / AddAlternativeString
+	Src     string // builder entry point: "" = Set/AddAlternativeWriter, "str" = SetBodyString / AddAlternativeString, "set" = Part setters
 }
 
 type FileSpec struct {
@@ -151,6 +152,27 @@ func (s *MsgSpec) Build() (*mail.Msg, error) {
 		if p.Desc != "" {
 			po = append(po, mail.WithPartContentDescription(p.Desc))
 		}
+		if p.Src == "set" {
+			// the part is created empty and filled through the Part setters
+			if i == 0 {
+				m.SetBodyString("text/x-placeholder", "placeholder")
+			} else {
+				m.AddAlternativeString("text/x-placeholder", "placeholder")
+			}
+			pp := m.GetParts()[len(m.GetParts())-1]
+			pp.SetContentType(mail.ContentType(p.CType))
+			pp.SetContent(string(p.Prod.Content()))
+			if p.Enc != "" {
+				pp.SetEncoding(mail.Encoding(p.Enc))
+			}
+			if p.Charset != "" {
+				pp.SetCharset(mail.Charset(p.Charset))
+			}
+			if p.Desc != "" {
+				pp.SetDescription(p.Desc)
+			}
+			continue
+		}
 		switch {
 		case p.Src == "str" && i == 0:
 			m.SetBodyString(mail.ContentType(p.CType), string(p.Prod.Content()), po...)
@@ -210,6 +232,13 @@ func (s *MsgSpec) Build() (*mail.Msg, error) {
 				m.AttachFile(path, fo...)
 			}
 			return nil
+		case "iofs":
+			fsys := fstest.MapFS{"dir/data.bin": &fstest.MapFile{Data: append([]byte(nil), content...)}}
+			fo = append(fo, mail.WithFileName(f.Name))
+			if embed {
+				return m.EmbedFromIOFS("dir/data.bin", fsys, fo...)
+			}
+			return m.AttachFromIOFS("dir/data.bin", fsys, fo...)
 		case "tpl":
 			if embed {
 				return m.EmbedTextTemplate(f.Name, verbatimTpl, string(content), fo...)
